@@ -61,6 +61,22 @@ let () =
         let s = bytes_of_hex f.(1) and rest = bytes_of_hex (if Array.length f > 2 then f.(2) else "-") in
         let r = (match f.(0) with "4" -> ipv4 s rest | "6" -> ipv6 s rest | _ -> ipaddr s rest) in
         out (b01 r ^ "\n")
+      | "H" ->   (* read extent of the access models (layer A): 1 + highest index read, under-read flag, code *)
+        let s = bytes_of_hex f.(2) and rest = bytes_of_hex (if Array.length f > 3 then f.(3) else "-") in
+        let full = s @ rest @ [tbl.(0)] in
+        let e = nat_of_int (List.length s) in
+        let rec int_of_nat = function O -> 0 | S k -> 1 + int_of_nat k in
+        let rec firstn k l = if k = 0 then [] else (match l with [] -> [] | x :: r -> x :: firstn (k - 1) r) in
+        let call b = (match f.(1) with
+          | "8" -> localA M822 b e | "1" -> localA M5321 b e | "2" -> localA M5322 b e
+          | "3" -> local6531A g b e
+          | _ -> ascii_domainA g.uscore b e) in
+        let rec go k = (match call (firstn k full) with
+          | FaultA i -> let i = int_of_nat i in if i + 1 > List.length full then out "BEYOND\n" else go (i + 1)
+          | RetA z -> out (Printf.sprintf "%d 0 %d\n" k (int_of_z z))
+          | UnderA -> out (Printf.sprintf "%d 1 0\n" k)
+          | FuelA -> out "FUEL\n") in
+        go 0
       | "S" -> out (b01 (special_domain (bytes_of_hex f.(1))) ^ "\n")
       | "T" -> out (Printf.sprintf "%d\n" (int_of_z (tld_lookup table (bytes_of_hex f.(1)))))
       | "U" ->
